@@ -3,6 +3,9 @@
 import json, os, glob
 HERE = os.path.dirname(os.path.dirname(os.path.abspath(__file__)))
 CHECKS = {
+ "C13": dict(cat="model_checking", tech="explicit-state exploration over histories of preceding pipeline items x complete sweep of one condition group (lists, linking, negation, all expression trees up to the operator bound) with the other groups over reduced forms, on the real ProcessingPipeline.apply; marker-set invariant against a reference evaluation",
+             text="For every history of <= 2 preceding items (state, log source, rename) and every judged item of the swept space, the set of detection-item fields, field references, fields-list entries and string values carrying the marker must equal the reference evaluation of rule / detection-item / field-name groups (linking, negation flags, expressions, empty groups always apply, applied/state conditions observing the model of items applied so far).",
+             note="reference leaf semantics for 30 pool conditions written from the documentation; one probe rule", ref="§3 C13"),
  "C14": dict(cat="model_checking", tech="exhaustive exploration of composition expressions (all bracketings of +, empty/None insertions, sum, all resolver permutations by name and by file, resolved once/twice, backend stages, operands used before composing) on real ProcessingPipeline objects against a list-concatenation reference",
              text="Marker pipelines with order-sensitive transformations, bracketing post-processing, wrapping finalizers and vars are composed in every way up to n pipelines; each composition is observed through a probe conversion (query text, vars, applied, applied_ids) and must equal the reference list-concatenation model; resolver results must not depend on specifier order and follow (priority, specifier).",
              note="reference model in checks/c14_composition.py; n <= 4 (quick) / 5 (thorough)", ref="§3 C14"),
